@@ -94,7 +94,13 @@ func (c14) Enumerate(tier string, seed int64, yield func(string, core.Case) bool
 	if thorough {
 		s4 = 4
 	}
-	if !famS4(2, s4, func(f [][]int, n int) bool { return emit("S4", cnfProb("slicenb", f, n, n), 1, len(f) == 3) }) {
+	if !famS4(2, s4, func(f [][]int, n int) bool {
+		d := 1
+		if len(f) == 4 {
+			d = 0
+		}
+		return emit("S4", cnfProb("slicenb", f, n, n), d, len(f) == 3)
+	}) {
 		return
 	}
 	if !famM(seed, tier, func(name string, f [][]int, n int) bool {
@@ -182,7 +188,7 @@ func (c14) Enumerate(tier string, seed int64, yield func(string, core.Case) bool
 	{
 		nseeds := 1500
 		if thorough {
-			nseeds = 15000
+			nseeds = 5000
 		}
 		if !enumMixedCatalogue(seed, nseeds, false, func(name string, p Prob) bool { return emit(name, p, 1, false) }) {
 			return
